@@ -303,6 +303,32 @@ func init() {
 					}
 					rep.Evaluations++
 				}
+				// multi-key gets: every key of a batch is routed on its own
+				for start := 0; start < 300 && bad == 0; start += 15 {
+					var keys [][]byte
+					var opqs []uint32
+					var quiet []bool
+					for i := start; i < start+15; i++ {
+						keys = append(keys, []byte(fmt.Sprintf("ck-%d-%d", seed, i)))
+						opqs = append(opqs, uint32(i))
+						quiet = append(quiet, false)
+					}
+					rc, ec := hb.Get(common.GetRequest{Keys: keys, Opaques: opqs, Quiet: quiet})
+					hits := 0
+					for res := range rc {
+						if !res.Miss {
+							hits++
+						}
+					}
+					for range ec {
+					}
+					if hits != len(keys) {
+						viol(fmt.Sprintf("a get of 15 stored keys through the cluster handler found %d of them (every key of a multi-key get must be routed by its own hash)", hits),
+							"cluster-handler-multiget", map[string]interface{}{"nodes": rev, "first_key": string(keys[0]), "hits": hits})
+						bad++
+					}
+					rep.Evaluations++
+				}
 				ha.Close()
 				hb.Close()
 			}
